@@ -137,7 +137,7 @@ bt_en_decode(uint8_t *buf, size_t buf_size, bt_en_node_p *ret_data, size_t *ret_
 		/* Convert and check len. */
 		raw_size = ustr2usize(buf, (size_t)(ptm - buf));
 		ptm ++;
-		if (buf_max <= (raw_size + ptm))
+		if ((size_t)(buf_max - ptm) <= raw_size)
 			return (EBADMSG); /* Out of buff range. */
 		/* Allocate node for returning data. */
 		(*ret_data) = bt_en_alloc(BT_EN_TYPE_STR, ptm, raw_size);
